@@ -3,6 +3,7 @@ package mxj
 func init() {
 	vHarnesses["H_C18_history"] = H_C18_history
 	vHarnesses["H_C18_noninterference"] = H_C18_noninterference
+	vHarnesses["H_C18_matrix"] = H_C18_matrix
 }
 
 // vRestoreDefaults: the documented way back to the defaults, public API only.
@@ -130,7 +131,7 @@ func vCallSetter(i int, form int, b bool, s string) {
 			XMLEscapeCharsDecoder()
 		}
 	case 17:
-		SetGlobalKeyMapPrefix(s[:1])
+		SetGlobalKeyMapPrefix(s)
 	case 18:
 		if form == 0 {
 			LeafUseDotNotation(b)
@@ -197,6 +198,9 @@ func H_C18_history() {
 			if !b {
 				arg = "|"
 			}
+		}
+		if i == 17 && form == 1 {
+			arg = []string{"a", "__", "", "t"}[vChoose(4)] // letters, long and empty prefixes
 		}
 		vCallSetter(i, form, b, arg)
 		if k == 0 {
@@ -273,4 +277,133 @@ func H_C18_noninterference() {
 	}
 	vRestoreDefaults()
 	vCover("noninterference")
+}
+
+// vProbes: nine behaviours, each rendered as a string (0 sequence decode, 1 sequence
+// encode, 2 JSON encode, 3 JSON decode, 4 XML decode, 5 XML decode with cast, 6 XML
+// encode, 7 queries, 8 AnyXml)
+func vProbes(c1, c2 string) [9]string {
+	var out [9]string
+	sortStrs := func(l []string) string {
+		for i := 1; i < len(l); i++ {
+			for j := i; j > 0 && l[j] < l[j-1]; j-- {
+				l[j], l[j-1] = l[j-1], l[j]
+			}
+		}
+		r := ""
+		for _, x := range l {
+			r += x + ";"
+		}
+		return r
+	}
+	enc := func(v interface{}, err error) string {
+		if err != nil {
+			return "error"
+		}
+		switch t := v.(type) {
+		case Map:
+			j, _ := t.Json()
+			return string(j)
+		case MapSeq:
+			j, _ := Map(t).Json()
+			return string(j)
+		case []byte:
+			return string(t)
+		}
+		return "?"
+	}
+	seqDoc := []byte("<R-x B=\"" + c1 + "1\" p:q=\"2\"><!--c--><c_d> t " + c2 + "</c_d><e/><?pi x?></R-x>")
+	ms, e0 := NewMapXmlSeq(seqDoc)
+	out[0] = enc(ms, e0)
+	fixed := MapSeq{"r": map[string]interface{}{
+		"#attr": map[string]interface{}{"a": map[string]interface{}{"#text": "<1", "#seq": 0}},
+		"k":     map[string]interface{}{"#text": "t&", "#seq": 0},
+		"e":     map[string]interface{}{"#seq": 1},
+	}}
+	// (a literal MapSeq is malformed once the reserved-key prefix has been changed)
+	if vCatch(func() {
+		sx, e1 := fixed.Xml()
+		out[1] = enc(sx, e1)
+	}) {
+		out[1] = "panic"
+	}
+	j2, e2 := Map{"A-b": "1", "-c": "<", "n": 1.5, "#text": "t"}.Json()
+	out[2] = enc(j2, e2)
+	m3, e3 := NewMapJson([]byte("{\"A-b\":1,\"c_d\":[true,null,\" x \"],\"-e\":\"&lt;\"}"))
+	out[3] = enc(m3, e3)
+	xmlDoc := []byte("<R-x B=\"" + c1 + "1\"><c_d> t " + c2 + "</c_d><c_d>2</c_d><e/><f>true</f><g>nan</g></R-x>")
+	m4, e4 := NewMapXml(xmlDoc)
+	out[4] = enc(m4, e4)
+	m5, e5 := NewMapXml(xmlDoc, true)
+	out[5] = enc(m5, e5)
+	em := Map{"r": map[string]interface{}{"-a": "<1", "#text": "t&", "k": []interface{}{"1", nil, ""}, "e": map[string]interface{}{}}}
+	x6, e6 := em.Xml()
+	x6i, e6i := em.XmlIndent("", " ")
+	out[6] = enc(x6, e6) + "|" + enc(x6i, e6i)
+	qm := Map{"a": map[string]interface{}{"-k": "1", "#text": "t", "l": []interface{}{map[string]interface{}{"k": "1", "v": "p"}, map[string]interface{}{"k": "2", "v": "q"}}}}
+	lp := qm.LeafPaths(true)
+	vals, _ := qm.ValuesForPath("a.l", "k:1")
+	vk, _ := qm.ValuesForKey("v", "k:2")
+	out[7] = sortStrs(lp) + "|" + sortStrs(qm.PathsForKey("k")) + "|" + m_strconv_Itoa(len(vals)) + "," + m_strconv_Itoa(len(vk))
+	ax, e8 := AnyXml([]interface{}{map[string]interface{}{"-a": "<", "b": ""}, "s&"}, "t")
+	out[8] = enc(ax, e8)
+	return out
+}
+
+// vAffects: the probes an option setter is documented to influence
+func vAffects(i int) []int {
+	switch i {
+	case 0, 1: // attribute prefix: Map decoding and encoding, attribute filtering of leaf queries
+		return []int{4, 5, 6, 7, 8}
+	case 2, 3, 8: // tag sequence numbers, lower-case keys, simple values as maps: the Map decoder
+		return []int{4, 5}
+	case 4, 5, 7: // white-space trimming, snake-case keys, XMPP stream tag: both XML decoders
+		return []int{0, 4, 5}
+	case 6, 9, 10, 11, 12: // cast switches: decoding with the cast flag only
+		return []int{5}
+	case 13, 14, 15: // empty-element syntax, validity check, escaping: the XML encoders
+		return []int{1, 6, 8}
+	case 16: // decoder-side escaping: the XML decoders
+		return []int{0, 4, 5}
+	case 17: // prefix of the reserved keys: everything XML, nothing JSON
+		return []int{0, 1, 4, 5, 6, 7, 8}
+	case 18, 19: // leaf notation, field separator: queries
+		return []int{7}
+	}
+	return nil // array size: nothing observable
+}
+
+// (d) matrix form: every setter x every behaviour it does not document
+func H_C18_matrix() {
+	vRestoreDefaults()
+	c1 := vEscText(vNondetString(0, 1, "<&\"x"), true) // a symbolic attribute byte
+	c2 := vEscText(vNondetString(1, 1, "x&>"), false)   // a symbolic text byte
+	before := vProbes(c1, c2)
+	i := vChoose(vNumSetters)
+	form := vChoose(2)
+	b := vChoose(2) == 1
+	arg := []string{"@", "_", "at"}[vChoose(3)]
+	if i == 0 && vChoose(2) == 1 {
+		arg = ""
+	}
+	vCallSetter(i, form, b, arg)
+	after := vProbes(c1, c2)
+	aff := vAffects(i)
+	for p := 0; p < 9; p++ {
+		may := false
+		for _, a := range aff {
+			if a == p {
+				may = true
+			}
+		}
+		if !may {
+			vAssert(after[p] == before[p], "options(matrix): a setter leaves every behaviour it does not document as it was")
+		}
+	}
+	vRestoreDefaults()
+	again := vProbes(c1, c2)
+	for p := 0; p < 9; p++ {
+		vAssert(again[p] == before[p], "options(matrix): restoring the defaults restores every behaviour")
+	}
+	vCover("matrix")
 }
